@@ -517,5 +517,9 @@ func genUniverse(r *rand.Rand, nInputs int) (simdoh.Zone, []Input) {
 			}, g.z.RRs...)
 		}
 	}
+	if core.Chance(r, 1, 5) {
+		// replies that arrive in two pieces
+		g.z.FirstRead = core.Pick(r, []int{1, 12, 13, 20, 31, 64, 200})
+	}
 	return g.z, inputs
 }
